@@ -119,6 +119,31 @@ def containers(good, bad, C=None):
     if C is not None:
         # lists that START with an instance of the class (a different dispatch arm of the constructor)
         extra = [('[obj,bad]', lambda: [C(good.copy()), bad.copy()]), ('(obj,bad,obj)', lambda: (C(good.copy()), bad.copy(), C(good.copy())))]
+        # the array OBJECT has a history with the constructors: it was accepted before without checking, it was accepted while it
+        # still held a valid value and was then changed in place, or another class accepted it (a 3x3 is SO(3) or SE(2))
+        def h_nocheck():
+            b = bad.copy()
+            call(C, b, check=False)
+            return b
+
+        def h_mutated():
+            v = good.copy()
+            call(C, v)
+            if v.shape == bad.shape:
+                v[...] = bad
+                return v
+            return bad.copy()
+
+        def h_other():
+            import spatialmath as sm
+            b = bad.copy()
+            for K in (sm.SO2, sm.SE2, sm.SO3, sm.SE3, sm.UnitQuaternion, sm.Twist3, sm.Twist2):
+                if K is not C:
+                    call(K, b)
+                    call(K, b, check=False)
+            return b
+        extra += [('bare/hist=nocheck', h_nocheck), ('bare/hist=mutated', h_mutated), ('bare/hist=otherclass', h_other),
+                  ('[good,bad]/hist=nocheck', lambda: [good.copy(), h_nocheck()]), ('[bad]/hist=mutated', lambda: [h_mutated()])]
     return extra + [('bare', lambda: bad.copy()), ('[bad]', lambda: [bad.copy()]), ('[good,bad]', lambda: [good.copy(), bad.copy()]),
             ('[bad,good]', lambda: [bad.copy(), good.copy()]), ('[good,bad,good]', lambda: [good.copy(), bad.copy(), good.copy()]),
             ('(bad,)', lambda: (bad.copy(),)), ('(good,bad)', lambda: (good.copy(), bad.copy()))]
